@@ -4,11 +4,9 @@
    Shape.  Model/Totality.v writes every indexing, slicing, unchecked subtraction, `expect`, `unreachable!`, out-of-range shift and
    overflowing addition of the modelled functions as an operation that yields `Panic why`; a read through a slice pointer behind
    the end of the slice is `Panic WOobRead`.  `C10_total_<f>` says no argument produces a Panic.  Where the code does panic the
-   full statement is kept restricted to `~ Known` with `Known` a decidable input class, next to a `_refuted` witness:
-     F17 Transaction::fee_in / all_fees, sum >= 2^64 (panic with overflow checks)   known_F17
-     F19 script::read_uint with size >= 9                                           known_F19
-   The model follows the repaired library: F1 (a4bc64e), F2 (4b01389), F12 (8d5600e), F16 (c723f02) and F18 (838e50c) are fixed, their
-   `_refuted` theorems and classes are gone and the five statements hold for every input.
+   full statement would be kept restricted to `~ Known` (a decidable input class) next to a `_refuted` witness — at present no such
+   restriction is left: the model follows the repaired library, F1 (a4bc64e), F2 (4b01389), F12 (8d5600e), F16 (c723f02), F18 (838e50c),
+   F17 (8ea09fb, saturating fee sums) and F19 (fc1698d, read_uint size bound) are fixed and every `C10_total_*` statement is unconditional.
    The allocation clause: `rsv` counts the bytes the decoders' own `vec![0; s]` / `Vec::with_capacity(len)` reserve; the bound is
    K + k * |input| with K = one MAX_VEC_SIZE per nesting level of length-prefixed vectors (3 for a block): the reservation is NOT
    proportional to the input — a 5-byte input can reserve MAX_VEC_SIZE bytes — it is bounded by that constant plus a linear term. *)
@@ -76,16 +74,15 @@ Proof. intros maxvec bs w H. pose proof (proj1 (key_dec_total maxvec bs)) as T. 
 Theorem C10_total_instructions : forall (minimal : bool) (s : bytes) (i : Script.item),
   In i (instructions minimal s) -> match i with IPanic _ | IFuel => False | _ => True end.
 Proof. exact instructions_clean. Qed.
-(* read_uint: total for the sizes Instructions::next uses (1, 2, 4) and up to 8, where it is the function of Model/Script.v;
-   from size 9 on `<< (i * 8)` overflows (F19) *)
-Theorem C10_total_read_uint : forall p data size w, known_F19 data size = false -> read_uint_p p data size <> Panic w.
+(* read_uint (F19, repaired by fc1698d): total for every size in both profiles; up to 8 bytes it is the function of Model/Script.v
+   (Instructions::next uses 1, 2, 4), beyond that the error NumericOverflow *)
+Theorem C10_total_read_uint : forall p data size w, read_uint_p p data size <> Panic w.
 Proof. exact read_uint_p_total. Qed.
 Theorem C10_read_uint_is_model : forall p data size, (size <= 8)%nat ->
   read_uint_p p data size = match Script.read_uint data size with SOk n => Val n | SErr _ => Fail (E "early") end.
 Proof. exact read_uint_p_small. Qed.
-Theorem C10_read_uint_refuted : read_uint_p Debug (repeat x01 9) 9 = Panic WShl /\ known_F19 (repeat x01 9) 9 = true
-  /\ exists n, read_uint_p Release (repeat x01 9) 9 = Val n /\ n <> le_val (repeat x01 9).
-Proof. exact read_uint_p_refuted. Qed.
+Theorem C10_read_uint_oversize : forall p data size, (8 < size)%nat -> (size <= length data)%nat -> read_uint_p p data size = Fail (E "overflow").
+Proof. exact read_uint_p_oversize. Qed.
 (* the template predicates index self.0[..] only behind their length tests: they are the total predicates of Model/Script.v *)
 Theorem C10_total_templates : forall s,
   is_p2sh_p s = Val (is_p2sh s) /\ is_p2pkh_p s = Val (is_p2pkh s) /\ is_p2pk_p s = Val (is_p2pk s) /\
@@ -175,14 +172,12 @@ Proof. exact minimum_value_p_total. Qed.
 Example C10_minimum_value_needs_the_library_bound : minimum_value_conf false (x60 :: repeat x00 8) = Panic WSlice.
 Proof. reflexivity. Qed.
 
-(* fee_in / all_fees: with overflow checks the u64 sum panics exactly when the fees of one asset reach 2^64 (F17); without, it wraps *)
-Theorem C10_total_fee_in : forall outs asset w, known_F17 outs asset = false -> fee_in Debug outs asset <> Panic w.
-Proof. intros outs asset w K H. assert (X : exists w, fee_in Debug outs asset = Panic w) by eauto. apply fee_in_panic_iff in X. congruence. Qed.
-Theorem C10_total_fee_in_release : forall outs asset w, fee_in Release outs asset <> Panic w.
-Proof. intros. apply fee_sum_release. Qed.
-Theorem C10_fee_in_refuted : fee_in Debug [(3, 18446744073709551615); (3, 1)] 3 = Panic WAdd /\ fee_in Release [(3, 18446744073709551615); (3, 1)] 3 = Val 0
-  /\ known_F17 [(3, 18446744073709551615); (3, 1)] 3 = true.
-Proof. repeat split; reflexivity. Qed.
+(* fee_in / all_fees (F17, repaired by 8ea09fb): never a panic, in either profile; the result is the true sum of the asset's fee outputs
+   capped at u64::MAX — exact for every sum below 2^64 *)
+Theorem C10_total_fee_in : forall outs asset, fee_in outs asset = Val (N.min (fold_right N.add 0 (map snd (filter (fun o => fst o =? asset) outs))) U64_MAX).
+Proof. exact fee_in_spec. Qed.
+Example C10_fee_in_saturates : fee_in [(3, 18446744073709551615); (3, 1)] 3 = Val 18446744073709551615 /\ fee_in [(3, 5); (4, 9); (3, 7)] 3 = Val 12.
+Proof. split; reflexivity. Qed.
 
 (* commitments from slices (F18, repaired by 838e50c): the four entry points test the length before the slice reaches the C parser;
    without that test every other length is an out-of-bounds read (read33_oob) *)
